@@ -83,6 +83,7 @@ type interpreter struct {
 	inAtomic   bool
 	inMapWrite bool
 	inSyncMap  bool
+	pcNames    map[uintptr]string
 }
 
 type undoRec struct {
